@@ -352,7 +352,9 @@ def chain_elements():
     ]
 
 
-LEAVES = [(E("n"),), (E("n"), E(",")), (E(":"), ("if", ((("break",),),))), (E("?"), E("+")), (N(1), ("break",), N(2))]
+LEAVES = [(E("n"),), (E("n"), E(",")), (E(":"), ("if", ((("break",),),))), (E("?"), E("+")), (N(1), ("break",), N(2)),
+          (("if", ((("break",),),)), N(9)),            # X when the construct's own stack has just been emptied
+          (N(1), N(2), ("mod", "v", (E("+"),)), ("break",))]  # X after a modified element in the same scope
 
 
 def probed_chain_elements():
@@ -402,6 +404,9 @@ def statement_menu():
         L(("mod", "‡", (E("d"), E("›"))), E("†")), L(N(3), ("for", None, (E("n"), ("if", ((("break",),),))))),
         L(N(3), ("for", None, (E("n"), N(2), E("<"), ("if", ((("recurse",),),)), E("n"), E(",")))), L(("lam", None, (N(1), ("break",), N(2))), E("†")),
         L(N(3), ("lam", None, (E(":"), ("if", ((E("‹"), ("recurse",)),)))), E("†")), L(N(3), E("ɾ")), L(E("W"),), L(N(2), ("sort", (E("N"),))),
+        L(("mod", "₌", (E("+"), E("N")))), L(("mod", "₌", (E("N"), E("+")))), L(("mod", "₍", (E("+"), E("N")))), L(("mod", "₍", (E("d"), E("-")))),
+        L(("mod", "₌", (E("!"), E("+")))), L(("mod", "~", (E("!"),))), L(("mod", "&", (E("!"),))), L(("mod", "v", (E("+"),))),
+        L(("lam", None, (("if", ((("break",),),)), N(9))), E("†")), L(N(2), ("map", (("if", ((("break",),),)), N(9)))),
         L(("fndef", "g", (), (N(1), ("break",), N(2))), ("fncall", "g")), L(("fndef", "g", (1,), (E(":"), ("if", ((("break",),),)), N(5))), ("fncall", "g")),
         L(N(2), ("map", (("break",), E("!")))), L(N(3), ("filter", (N(2), E("<"), ("break",), N(0)))), L(("while", (N(0),), (N(1),)), E("n")),
         L(N(2), ("for", None, (("while", (N(0),), (N(1),)), E("n"), E(",")))),
